@@ -591,3 +591,29 @@ package table
 //@   ensures [C07.switch.cas] err == nil ==> noSlash(name) && !m.store.wDel[tkey(name)] && m.store.wVer[tkey(name)] == m.store.rPair[tkey(name)].Ver && m.store.rHas[tkey(name)] && tableOf(bytesOf(m.store.wVal[tkey(name)])).ClusterID == parseU(m.store.wVal[seqKey]) && tableOf(bytesOf(m.store.wVal[tkey(name)])).RecoverID == 0 && tableOf(bytesOf(m.store.wVal[tkey(name)])).Name == tableOf(bytesOf(m.store.rPair[tkey(name)].Value)).Name
 //@   ensures [C07.switch.all] err == nil ==> m.nh.nelem - old(m.nh.nelem) == reader.nrec - old(reader.nrec)
 //@   modifies m.store.rHas, m.store.rPair, m.store.nwk, m.store.wVal, m.store.wVer, m.store.wDel, m.store.wPrevHas, m.store.wPrev, reader.nrec, m.nh.lastRes, m.nh.lastErr, m.nh.lastCmd, m.nh.nelem, m.nh.nseq
+
+// ---------------------------------------------------------------- read path selection (C10)
+
+// readTable: a linearizable read goes through consensus (SyncRead), any other read is answered
+// locally (StaleRead) - exactly one of the two, exactly once; the request object is passed on as is.
+//@ ghostfield any.lastReq Iface
+//@ func readTable
+//@   maypanic
+//@   params t, ctx, linearizable, req
+//@   results s, err
+//@   requires t != nil && t.nh != nil
+//@   ensures [C10.read.path] (linearizable ==> t.nh.nsync == old(t.nh.nsync) + 1 && t.nh.nstale == old(t.nh.nstale)) && (!linearizable ==> t.nh.nstale == old(t.nh.nstale) + 1 && t.nh.nsync == old(t.nh.nsync))
+//@   modifies t.nh.nsync, t.nh.nstale
+
+// Range / Iterator: the consistency level requested by the caller decides the read path
+//@ func (*ActiveTable).Range
+//@   maypanic
+//@   requires t != nil && t.nh != nil && req != nil
+//@   ensures [C10.range.path] len(req.Key) <= 1024 && len(req.RangeEnd) <= 1024 ==> (req.Linearizable ==> t.nh.nsync == old(t.nh.nsync) + 1 && t.nh.nstale == old(t.nh.nstale)) && (!req.Linearizable ==> t.nh.nstale == old(t.nh.nstale) + 1 && t.nh.nsync == old(t.nh.nsync))
+//@   ensures [C16.range.limits] len(req.Key) > 1024 || len(req.RangeEnd) > 1024 ==> t.nh.nsync == old(t.nh.nsync) && t.nh.nstale == old(t.nh.nstale)
+//@   modifies t.nh.nsync, t.nh.nstale
+//@ func (*ActiveTable).Iterator
+//@   maypanic
+//@   requires t != nil && t.nh != nil && req != nil
+//@   ensures [C10.iter.path] (req.Linearizable ==> t.nh.nsync == old(t.nh.nsync) + 1 && t.nh.nstale == old(t.nh.nstale)) && (!req.Linearizable ==> t.nh.nstale == old(t.nh.nstale) + 1 && t.nh.nsync == old(t.nh.nsync))
+//@   modifies t.nh.nsync, t.nh.nstale
